@@ -29,6 +29,22 @@ def run(chk):
     sv.design(chk, "ServerStack", [chk.pick("design_quick", "design")],
               {"ascoded": "Act_ReleaseOnlyWhenTrulyIdle", "design_cancel": "Inv_ReleasedIsMarkedIdle",
                "fastpath": "Inv_ReleasedIsMarkedIdle"})
+    # who keeps a (reloaded) run alive -- the garbage collector as an action of the environment (RunRefs.tla): with the
+    # runtime holding its run tasks (the code as it is) no unfinished run is ever collected and no event refused; without
+    # (the code before /repo fix 141e0cf) TLC must find the history of the `reload_then_gc` case above
+    from harness import tlc
+    from harness.core import SPECS
+    res = tlc.run(SPECS / "sync/RunRefs.tla", SPECS / "sync/MC_RunRefs_ascoded.cfg", workdir=chk.work, deadlock=False, workers=2)
+    chk.record_tlc("RunRefs/ascoded", res)
+    if res.violated:
+        chk.violation("model:RunRefs:ascoded:%s" % res.violated, "RunRefs.tla (code as it is) violates %s" % res.violated,
+                      {"trace": res.trace[-8:]})
+    else:
+        chk.require_tlc_ok("RunRefs/ascoded", res)
+    res = tlc.run(SPECS / "sync/RunRefs.tla", SPECS / "sync/MC_RunRefs_weak.cfg", workdir=chk.work, deadlock=False, workers=2)
+    chk.record_tlc("RunRefs/weak", res, count=False)
+    if res.violated != "Inv_NoEventLost":
+        chk.note("RunRefs.tla (runs held weakly only) was expected to violate Inv_NoEventLost; TLC says %s %s" % (res.violated, res.error))
     # the DBOS stack: lifecycle lock (Lifecycle.tla) and DBOSIdleReleaseDecorator (DbosIdleRelease.tla)
     from harness.checks import _dbos_idle
     _dbos_idle.run_c26_part(chk)
